@@ -176,6 +176,10 @@ func (c *twistPoint) Double(a *twistPoint, pool *bnPool) {
 	e := newGFp2(pool).Add(t, A)
 	f := newGFp2(pool).Square(e, pool)
 
+	// c may alias a: read a.y and a.z before c.y is written.
+	t.Mul(a.y, a.z, pool)
+	c.z.Add(t, t)
+
 	t.Add(d, d)
 	c.x.Sub(f, t)
 
@@ -185,9 +189,6 @@ func (c *twistPoint) Double(a *twistPoint, pool *bnPool) {
 	c.y.Sub(d, c.x)
 	t2.Mul(e, c.y, pool)
 	c.y.Sub(t2, t)
-
-	t.Mul(a.y, a.z, pool)
-	c.z.Add(t, t)
 
 	A.Put(pool)
 	B.Put(pool)
